@@ -181,6 +181,51 @@ def aliens(expr, vocabulary=(), fields=None):
   return out
 
 
+_CONTAINER_METHODS = {'to_numpy', 'copy', 'flatten', 'ravel', 'squeeze', 'tolist', 'to_list', 'to_frame', 'to_series', 'view', '__array__'}
+_CONTAINER_FUNCS = {'pd.Series', 'pandas.Series', 'np.array', 'np.asarray', 'numpy.array', 'numpy.asarray', 'np.ravel', 'np.squeeze', 'list', 'tuple', 'pd.Index',
+                    'np.asanyarray', 'np.ascontiguousarray', 'np.atleast_1d'}
+
+
+def data_core(e):
+  """`e` with the wrappers removed that only change the container of the data, not the numbers or their order:
+  pd.Series(X), np.asarray(X), X.to_numpy(), X.values, X.copy(), X.reset_index(drop=True), X.ravel(), ..., and the
+  series-of-a-one-column-frame idiom X.reset_index().rename(columns={0: c})[c].  Two terms with the same core denote the
+  same data; whether the containers behave alike downstream (index alignment, dtype) is a separate question."""
+  import copy as _copy
+
+  def strip(x):
+    while True:
+      if isinstance(x, ast.Call) and isinstance(x.func, ast.Attribute) and x.func.attr in _CONTAINER_METHODS and not x.args and not x.keywords:
+        x = x.func.value
+        continue
+      if isinstance(x, ast.Attribute) and x.attr == 'values':
+        x = x.value
+        continue
+      if isinstance(x, ast.Call) and isinstance(x.func, ast.Attribute) and x.func.attr == 'reset_index' and not x.args \
+          and len(x.keywords) == 1 and x.keywords[0].arg == 'drop' and is_const(x.keywords[0].value, True):
+        x = x.func.value
+        continue
+      if isinstance(x, ast.Call) and norm(x.func) in _CONTAINER_FUNCS and len(x.args) == 1 and not x.keywords and not isinstance(x.args[0], ast.Starred):
+        x = x.args[0]
+        continue
+      # X.reset_index().rename(columns={0: 'c'})['c']  ->  X
+      if isinstance(x, ast.Subscript) and isinstance(x.slice, ast.Constant) and isinstance(x.value, ast.Call) and isinstance(x.value.func, ast.Attribute) \
+          and x.value.func.attr == 'rename' and isinstance(x.value.func.value, ast.Call) and isinstance(x.value.func.value.func, ast.Attribute) \
+          and x.value.func.value.func.attr == 'reset_index' and not x.value.func.value.args and not x.value.func.value.keywords:
+        kw = kwarg(x.value, 'columns')
+        if isinstance(kw, ast.Dict) and len(kw.keys) == 1 and is_const(kw.keys[0], 0) and isinstance(kw.values[0], ast.Constant) and kw.values[0].value == x.slice.value:
+          x = x.value.func.value.func.value
+          continue
+      break
+    for fld, val in list(ast.iter_fields(x)):
+      if isinstance(val, ast.AST):
+        setattr(x, fld, strip(val))
+      elif isinstance(val, list):
+        setattr(x, fld, [strip(v) if isinstance(v, ast.AST) else v for v in val])
+    return x
+  return strip(_copy.deepcopy(e))
+
+
 def verdict_text(ok, expr, vocabulary=()):
   """Three-valued verdict for a pattern rule: True when the pattern matched; otherwise False if `expr` is a closed term
   over the vocabulary (a recognised different computation) and None if it still reads unresolved names."""
